@@ -1,7 +1,13 @@
-import Gtree.Lemmas.Render
-import Gtree.Model.Api
+import Gtree.Lemmas.Output
 /-
   C01 — text output obeys the tree-drawing rule (property theorems; helper lemmas live in Lemmas/).
+
+  Reading guide: `spell f s` (Spec/Spelling.lean) is the Markdown document that writes the forest `f`
+  in the notation `s`; `Spelling.Valid` says the notation is well-formed and the names can be written
+  in it; `mergeRoot` (Spec/Merge.lean) makes equally named siblings one node; `renderSpec`
+  (Spec/Render.lean) is the tree-drawing rule; `outputIter (textJob fmt)` is the model of
+  `OutputFromMarkdown` (Model/Api.lean), `Out.written` the bytes given to the writer, `Out.err` the
+  returned error.
 -/
 namespace Gtree
 
@@ -13,5 +19,74 @@ theorem C01_render_refines_spec (f : Fmt) (t : T) :
 /-- one line per node: the number of lines written for a root is the number of its nodes -/
 theorem C01_one_line_per_node (f : Fmt) (t : T) : (textChunks f t).length = t.size := by
   simp [textChunks, growRoot_length]
+
+/-- Round trip: every valid spelling of a forest generates that forest with equally named siblings
+    merged, without error. -/
+theorem C01_generate_roundtrip (f : List T) (s : Spelling) (hv : s.Valid (items 1 f)) :
+    (generate { doc := spell f s }).err = none ∧ (generate { doc := spell f s }).roots = f.map mergeRoot :=
+  generate_spell f s hv
+
+/-- C01, full statement: for every forest, every valid spelling of it and every four branch strings,
+    `OutputFromMarkdown` writes exactly the drawing rule applied to the forest with equally named
+    siblings merged, and returns nil. -/
+theorem C01_text_output (f : List T) (s : Spelling) (fmt : Fmt) (hv : s.Valid (items 1 f)) :
+    outputIter (textJob fmt) { doc := spell f s } {} = ⟨renderSpec fmt (f.map mergeRoot), none⟩ := by
+  obtain ⟨herr, hroots⟩ := generate_spell f s hv
+  unfold outputIter
+  simp only [herr, Option.isNone_none, if_true, hroots]
+  obtain ⟨j, hj⟩ := runRoots_nofault (textJob fmt) rfl (f.map mergeRoot) 0
+  rw [hj]
+  simp only [textJob]
+  rw [text_of_roots]
+  rfl
+
+/-- the same for the all-at-once path (`generate(); grow(); spread()`) -/
+theorem C01_text_output_batch (f : List T) (s : Spelling) (fmt : Fmt) (hv : s.Valid (items 1 f)) :
+    outputBatch (textJob fmt) false { doc := spell f s } {} = ⟨renderSpec fmt (f.map mergeRoot), none⟩ := by
+  obtain ⟨herr, hroots⟩ := generate_spell f s hv
+  unfold outputBatch
+  simp only [herr, hroots]
+  simp only [textJob, Bool.false_eq_true, if_false, emit_nofault]
+  rw [text_of_roots]
+
+end Gtree
+
+namespace Gtree
+/-! Non-vacuity: a concrete non-trivial forest (repeated sibling names, three levels) and a
+    concrete spelling (two-space units, alternating bullets, a blank row) satisfy `Spelling.Valid`. -/
+
+def exForest : List T :=
+  [.mk [0x61] [.mk [0x62] [.mk [0x63] []], .mk [0x64] [], .mk [0x62] [.mk [0x65] []]], .mk [0x66] []]
+
+def exSpelling : Spelling :=
+  { c := sp, unit := 2, bullet := fun i => if i % 2 = 0 then hy else ast, sharp := false,
+    blanks := fun i => if i = 1 then [[sp, tab]] else [], crlf := false, finalNL := true }
+
+theorem exItems : items 1 exForest =
+    [(1, [0x61]), (2, [0x62]), (3, [0x63]), (2, [0x64]), (2, [0x62]), (3, [0x65]), (1, [0x66])] := by
+  simp [exForest, items]
+
+example : exSpelling.Valid (items 1 exForest) := by
+  rw [exItems]
+  refine ⟨Or.inl rfl, by decide, ?_, ?_, ?_, ?_⟩
+  · intro i; simp only [exSpelling]; split <;> simp
+  · intro it hit
+    simp only [List.mem_cons, List.not_mem_nil, or_false] at hit
+    rcases hit with rfl | rfl | rfl | rfl | rfl | rfl | rfl <;>
+      exact ⟨by decide, by decide, by decide, by simp [exSpelling], by simp [exSpelling]⟩
+  · intro i b hb
+    simp only [exSpelling] at hb
+    split at hb
+    · simp only [List.mem_singleton] at hb; subst hb; exact ⟨by decide, by decide, by decide⟩
+    · simp at hb
+  · intro i r hr
+    simp only [spellRows, rowOf, listRow, exSpelling, List.mem_append, List.mem_cons, List.not_mem_nil, or_false] at hr
+    have hbl : ∀ j : Nat, ∀ b ∈ (if j = 1 then [[sp, tab]] else ([] : List Bytes)), b.length ≤ 2 := by
+      intro j b hb; split at hb <;> simp_all
+    simp only [Bool.false_eq_true, if_false] at hr
+    rcases hr with h | h | h | h | h | h | h | h | h | h | h | h | h | h <;>
+      first
+        | (have := hbl _ r h; simp only [maxToken]; omega)
+        | (subst h; simp [maxToken])
 
 end Gtree
